@@ -92,6 +92,10 @@ func cmdCheck(args []string) int {
 	workers := fs.Int("workers", runtime.NumCPU(), "parallel workers")
 	noReplay := fs.Bool("noreplay", false, "skip native replay (debug only; verdict inconclusive)")
 	solver := fs.String("solver", "z3", "solver binary")
+	smode := fs.String("solvermode", "incremental", "incremental|reset")
+	ib := fs.Int("incrms", 30, "incremental solver budget per query in ms before falling back to a fresh solve")
+	qt := fs.Int("qt", 0, "per-query solver timeout in seconds (override)")
+	wallF := fs.Int("wall", 0, "per-harness wall budget in seconds (override)")
 	if len(args) == 0 {
 		fmt.Fprintln(os.Stderr, "check: need property id")
 		return 2
@@ -104,6 +108,8 @@ func cmdCheck(args []string) int {
 	if *tier == "" {
 		*tier = "quick"
 	}
+	solverMode = *smode
+	incrBudgetMs = int64(*ib)
 	seed, _ := strconv.Atoi(os.Getenv("VERIF_SEED"))
 	t0 := time.Now()
 
@@ -159,10 +165,20 @@ func cmdCheck(args []string) int {
 			"github.com/decred/dcrd/crypto/ripemd160.New": modPath + "/internal/vfmodel.NewRipemd160",
 		}}
 	base.TierInt = tierInt(*tier)
+	base.Wall = 150 * time.Second
+	if *tier == "thorough" {
+		base.Wall = 30 * time.Minute
+	}
 	if *tier == "thorough" {
 		base.Timeout = 300 * time.Second
 		base.MaxSteps = 20_000_000
 		base.MaxPaths = 2000000
+	}
+	if *qt > 0 {
+		base.Timeout = time.Duration(*qt) * time.Second
+	}
+	if *wallF > 0 {
+		base.Wall = time.Duration(*wallF) * time.Second
 	}
 	// group by bigint mode
 	var outcomes []*harnessOutcome
@@ -245,7 +261,7 @@ func cmdCheck(args []string) int {
 func countDischarged(hr *HarnessRun) int {
 	n := 0
 	for _, o := range hr.Obls {
-		if o.Verdict == "discharged" {
+		if o.Verdict == "discharged" || o.Verdict == "discharged-modulo-known" {
 			n++
 		}
 	}
